@@ -88,7 +88,8 @@ func runC01(env *Env, rc *RunCtx) {
 		} else {
 			reqs = []*Request{{Kind: "check", Tuple: q}}
 		}
-		r := env.Exec(et, reqs, NoFaults())
+		r := env.Exec(et, reqs, WithStragglers())
+		rc.Count("stragglers_completed_late", r.Late)
 		rc.Rec.Execs++
 		rc.AddSchedule(r.TraceHash)
 		rc.Rec.ParkedSets += r.ParkedSets
